@@ -949,6 +949,15 @@ class Interp:
             base = self.eval(target.value, frame)
             self.store_attr(base, target.attr, v, st, frame)
             return
+        if isinstance(target, ast.Subscript) and isinstance(target.slice, ast.Slice):
+            base = self.eval(target.value, frame)
+            sl = target.slice
+            items = self.concrete_iter(v)
+            if isinstance(base, Lst) and sl.lower is None and sl.upper is None and sl.step is None and items is not None:
+                base.items[:] = items  # lst[:] = ... replaces the contents of the same list object
+                self.emit("mutate", st, base=base, how="slice-assign", value=v)
+                return
+            raise Undecided(f"unsupported slice assignment line {st.lineno}")
         if isinstance(target, ast.Subscript):
             base = self.eval(target.value, frame)
             key = self.eval(target.slice, frame)
@@ -1029,7 +1038,7 @@ class Interp:
             if isinstance(expr, ast.Call):
                 if ast.unparse(expr.func) == "re.compile" and len(expr.args) == 1 and isinstance(expr.args[0], ast.Constant) and isinstance(expr.args[0].value, str) and not expr.keywords:
                     return Obj(None, {"pattern": Const(expr.args[0].value)}, label=f"re.Pattern({expr.args[0].value!r})")
-                if isinstance(expr.func, ast.Name) and expr.func.id in ("tuple", "list", "dict", "frozenset", "set", "sorted"):
+                if isinstance(expr.func, ast.Name) and expr.func.id in ("tuple", "list", "dict", "frozenset", "set", "sorted", "object"):
                     # a module-level table built from literals (e.g. a tuple of precompiled patterns): evaluated once
                     gc = self.__dict__.setdefault("_globals", {})
                     key = (mod.name, name)
@@ -1487,7 +1496,26 @@ class Interp:
 
     # ---- integer interval facts about individual Term objects (keyed by identity) ----
     def bounds_of(self, t):
-        return self.__dict__.setdefault("_bounds", {}).get(id(t), (None, None, None))[1:]
+        rec = self.__dict__.setdefault("_bounds", {}).get(id(t))
+        if rec is not None:
+            return rec[1:]
+        return self.intrinsic_bounds(t)
+
+    def intrinsic_bounds(self, t, depth=0):
+        """Bounds that hold for every value of the term: str.find/rfind >= -1, len() >= 0, x + c."""
+        if not isinstance(t, Term) or depth > 4:
+            return (None, None)
+        if t.op == "call" and isinstance(t.args[0], Term) and t.args[0].op == "attr" and t.args[0].args[1] in ("find", "rfind"):
+            return (-1, None)
+        if t.op == "call" and isinstance(t.args[0], Builtin) and t.args[0].name == "len":
+            return (0, None)
+        if t.op == "binop" and t.args[0] in ("+", "-"):
+            l, r = t.args[1], t.args[2]
+            if isinstance(r, Const) and isinstance(r.v, int) and not isinstance(r.v, bool):
+                lo, hi = self.bounds_of(l) if isinstance(l, Term) else (None, None)
+                k = r.v if t.args[0] == "+" else -r.v
+                return (lo + k if lo is not None else None, hi + k if hi is not None else None)
+        return (None, None)
 
     def _norm_cmp(self, sym, l, r):
         """-> (term, op, k) with the term on the left, or None."""
@@ -1525,6 +1553,11 @@ class Interp:
         return None
 
     def learn_from(self, cond, truth):
+        if isinstance(cond, Term) and cond.op == "not":
+            return self.learn_from(cond.args[0], not truth)
+        if isinstance(cond, Term) and cond.op != "cmp" and (cond.pytype == "int" or self.intrinsic_bounds(cond) != (None, None)):
+            # truthiness of an integer: 'if end:' is 'end != 0'
+            cond = Term("cmp", "!=", cond, Const(0))
         if not (isinstance(cond, Term) and cond.op == "cmp"):
             return
         n = self._norm_cmp(cond.args[0], cond.args[1], cond.args[2]) if cond.args[0] in ("<", "<=", ">", ">=", "==", "!=") else None
@@ -1574,7 +1607,9 @@ class Interp:
         return Const(None)
 
     def ex_Lambda(self, e, frame):
-        return Term("lambda", e.lineno, node=e)
+        t = Term("lambda", e.lineno, node=e)
+        t.lam = (e, frame)  # callable: see apply()
+        return t
 
     def ex_Await(self, e, frame):
         # a directly awaited coroutine call may be inlined
@@ -1606,7 +1641,7 @@ class Interp:
     def _comp(self, e, frame, kind):
         gens = e.generators
         if len(gens) != 1:
-            raise Undecided("nested comprehension generators")
+            return self._comp_nested(e, frame, kind)
         g = gens[0]
         itv = self.eval(g.iter, frame)
         items = self.concrete_iter(itv)
@@ -1642,6 +1677,35 @@ class Interp:
         else:
             elt = self.eval_nofork(e.elt, sub)
         return Term("comp", elt, itv, tuple(conds), kind, node=e)
+
+    def _comp_nested(self, e, frame, kind):
+        """Several 'for' clauses: evaluated when every iterable met is concrete (the usual case in constructed worlds)."""
+        sub = Frame(frame.fi, frame.module, {}, parent=frame, cls=frame.cls)
+        out = []
+
+        def rec(i):
+            if i == len(e.generators):
+                if kind == "dict":
+                    out.append((self.eval(e.key, sub), self.eval(e.value, sub)))
+                else:
+                    out.append(self.eval(e.elt, sub))
+                return
+            g = e.generators[i]
+            items = self.concrete_iter(self.eval(g.iter, sub))
+            if items is None:
+                raise Undecided("nested comprehension over a symbolic iterable")
+            for item in items:
+                self.assign(g.target, item, sub, e)
+                if all(self.truth(self.eval(c, sub), c) for c in g.ifs):
+                    rec(i + 1)
+
+        rec(0)
+        if kind == "dict":
+            d = Dct()
+            for k_, v_ in out:
+                d.set(k_, v_)
+            return d
+        return Lst(out) if kind in ("list", "gen") else Tup(out)
 
     def eval_nofork(self, e, frame):
         """Evaluate without forking on unknown sub-conditions (inside symbolic comprehensions)."""
@@ -1760,6 +1824,25 @@ class Interp:
             r = self.fold_re(callee, args, kwargs)
             if r is not None:
                 return r
+        if isinstance(callee, Foreign) and callee.dotted.split(".")[-1] in ("itemgetter", "attrgetter") and callee.dotted.split(".")[0] in ("operator", "itemgetter", "attrgetter") and len(args) == 1 and isinstance(args[0], Const):
+            t_ = Term("getter", callee.dotted.split(".")[-1], args[0])
+            return t_
+        if isinstance(callee, Term) and callee.op == "getter" and len(args) == 1:
+            if callee.args[0] == "itemgetter":
+                b_ = args[0]
+                k_ = callee.args[1]
+                if isinstance(b_, (Tup, Lst)) and isinstance(k_.v, int) and -len(b_.items) <= k_.v < len(b_.items):
+                    return b_.items[k_.v]
+                if isinstance(b_, Dct) and b_.get(k_) is not None:
+                    return b_.get(k_)
+            elif isinstance(callee.args[1].v, str):
+                return self.get_attr(args[0], callee.args[1].v, node, frame)
+        if isinstance(callee, Foreign) and callee.dotted in ("operator.eq", "operator.ne", "operator.is_", "operator.is_not", "operator.contains", "operator.not_", "operator.truth") and not kwargs:
+            op_ = callee.dotted.split(".")[1]
+            if op_ in ("eq", "ne", "is_", "is_not") and len(args) == 2:
+                return self.compare({"eq": "Eq", "ne": "NotEq", "is_": "Is", "is_not": "IsNot"}[op_], args[0], args[1], node)
+            if op_ == "contains" and len(args) == 2:
+                return self.compare("In", args[1], args[0], node)
         fm = self.opts.get("foreign_model")
         if fm is not None and isinstance(callee, (Foreign, Term)):
             r = fm(self, callee, args, kwargs)
@@ -1773,6 +1856,23 @@ class Interp:
             r = self.call_method_model(callee.args[0], callee.args[1], args, kwargs, node)
             if r is not NotImplemented:
                 return r
+        if isinstance(callee, Term) and callee.op == "lambda" and getattr(callee, "lam", None) is not None and not starkw:
+            node_, fr_ = callee.lam
+            la = node_.args
+            names = [x.arg for x in la.posonlyargs + la.args]
+            if not la.vararg and not la.kwarg and len(args) <= len(names):
+                env = {}
+                for i_, n_ in enumerate(names):
+                    if i_ < len(args):
+                        env[n_] = args[i_]
+                    elif n_ in kwargs:
+                        env[n_] = kwargs[n_]
+                    else:
+                        di = i_ - (len(names) - len(la.defaults))
+                        if di < 0:
+                            raise _Raise(Term("exc", "TypeError", "missing lambda argument"), node)
+                        env[n_] = self.eval(la.defaults[di], fr_)
+                return self.eval(node_.body, Frame(fr_.fi, fr_.module, env, parent=fr_, cls=fr_.cls))
         kwt = tuple(kwargs.items()) + tuple((None, s) for s in starkw)
         if isinstance(callee, Fn):
             fi = callee.fi
@@ -1911,6 +2011,19 @@ class Interp:
                 return Term("view", obj_dict(args[0]), "dict")
             if isinstance(args[0], Cls):
                 return Term("view", self.class_dict(args[0].ci), "dict")
+        if name == "object" and not args and not kwargs:
+            n_ = self.__dict__.setdefault("_obj_counter", {})
+            n_["object"] = n_.get("object", 0) + 1
+            return Obj(None, {"__closed__": Const(True)}, label=f"<object#{n_['object']}>")
+        if name == "sorted" and len(args) == 1 and set(kwargs) <= {"key", "reverse"} and kwargs:
+            items = self.concrete_iter(args[0])
+            rev = kwargs.get("reverse", Const(False))
+            if items is not None and isinstance(rev, Const):
+                keyf = kwargs.get("key")
+                ks = [self.apply(keyf, [x], {}, [], node, frame, False) if keyf is not None else x for x in items]
+                if all(isinstance(k_, Const) and isinstance(k_.v, (str, int, float)) for k_ in ks) and len({type(k_.v) is str for k_ in ks}) <= 1:
+                    order = sorted(range(len(items)), key=lambda i_: ks[i_].v, reverse=bool(rev.v))
+                    return Lst([items[i_] for i_ in order])
         if name == "sorted" and len(args) == 1 and not kwargs:
             items = self.concrete_iter(args[0])
             if items is not None:
@@ -1995,6 +2108,10 @@ class Interp:
                     return self.get_attr(base, attr, node, frame)
                 if len(args) == 3 and (base.attrs.get("__closed__") is not None or base.cls is not None):
                     return args[2]  # annotation-only names do not exist at run time
+            if len(args) == 2 and isinstance(base, Obj) and base.attrs.get("__closed__") is not None and not (base.cls is not None and base.cls.has_member(attr)):
+                x = Term("exc", "AttributeError", attr)
+                self.emit("raise", node, value=x)
+                raise _Raise(x, node)
             if len(args) == 2:
                 return self.get_attr(base, attr, node, frame)
             ci = class_of(base)
